@@ -45,6 +45,11 @@ static Built build(Rng& r, const GenCfg& cfg, int rows, int cols) {
     for (int i = 0; i < n - k; i++) a.set_ref(pos++, i == 0 ? (const ExprNode&)sqrt(leaf) : g.gen(1, 1, 2));
     if (!first) a.set_ref(pos++, blk);
     ep = &ExprVector::new_(a, row ? ExprVector::ROW : ExprVector::COL);
+  } else if (rows > 1 && cols > 1 && r.coin(35)) {
+    // a matrix written entry by entry (a column of rows of scalar expressions with nested operators): one agenda per entry
+    Array<const ExprNode> rws(rows);
+    for (int i = 0; i < rows; i++) { Array<const ExprNode> en(cols); for (int j = 0; j < cols; j++) en.set_ref(j, g.gen(1, 1, std::max(2, cfg.max_depth - 1))); rws.set_ref(i, ExprVector::new_row(en)); }
+    ep = &ExprVector::new_col(rws);
   } else ep = &g.gen(rows, cols, cfg.max_depth);
   const ExprNode& e = *ep;
   b.dag = dump_expr(e, *b.args);
@@ -148,6 +153,23 @@ int main(int argc, char** argv) {
             if (!sel.empty()) { IntervalVector ys = f.eval_vector(box, comps); string st; for (size_t q = 0; q < sel.size(); q++) { if (q) st += "."; st += to_string(sel[q]); }
               EMIT("evalpt_comps %s %s %s => %s\n", b.dag.c_str(), ptok(p).c_str(), st.c_str(), mtok(ys, false).c_str()); }
           } else { IntervalMatrix y = f.eval_matrix(box); EMIT("sameas eval_matrix %s => %s\n", rt.c_str(), mtok(y).c_str()); }
+          // the overloads that evaluate SELECTED rows / columns only (own agendas in Eval), after an unrelated call of the same overload:
+          // the entries returned are checked against the exact value of the selected entries at a point
+          if (rows > 1 || cols > 1) {
+            auto pick = [&](int n) { BitSet b = BitSet::empty(n); while (b.empty()) for (int q = 0; q < n; q++) if (r.coin()) b.add(q); return b; };
+            auto flat = [&](const BitSet& rs, const BitSet& cs) { string st; for (int i = 0; i < rows; i++) if (rs[i]) for (int j = 0; j < cols; j++) if (cs[j]) { if (!st.empty()) st += "."; st += to_string(i * cols + j); } return st; };
+            BitSet rs = pick(rows), cs = pick(cols); IntervalVector other = gen_box(r, b.nvar); Vector p = pick_point(r, box);
+            bool hist = r.coin(60);
+            if (r.coin()) {
+              if (hist) { try { f.eval_matrix(other, rs); } catch (...) {} }
+              IntervalMatrix M = f.eval_matrix(box, rs); check_round_up("eval_matrix(rows)");
+              EMIT("evalpt_comps %s %s %s => %s\n", b.dag.c_str(), ptok(p).c_str(), flat(rs, BitSet::all(cols)).c_str(), mtok(M).c_str());
+            } else {
+              if (hist) { try { f.eval_matrix(other, pick(rows), pick(cols)); } catch (...) {} }
+              IntervalMatrix M = f.eval_matrix(box, rs, cs); check_round_up("eval_matrix(rows,cols)");
+              EMIT("evalpt_comps %s %s %s => %s\n", b.dag.c_str(), ptok(p).c_str(), flat(rs, cs).c_str(), mtok(M).c_str());
+            }
+          }
         }
       }
       } catch (std::exception& e) { EMIT("evalerror %s %s => 0\n", b.dag.c_str(), e.what()); }
